@@ -63,3 +63,28 @@ def py_build(cfg):
                      os.path.join(d, "src/python/PyImath")])
     _done[cfg] = res
     return res
+
+
+def vpool_build(cfg):
+    """compile py/vpool.cpp (test WorkerPool) against the PyImath library of configuration cfg; returns the directory to add to PYTHONPATH"""
+    b = py_build(cfg)
+    outd = os.path.join(b["dir"], "vpool")
+    os.makedirs(outd, exist_ok=True)
+    src = os.path.join(VERIF, "py", "vpool.cpp")
+    so = os.path.join(outd, "vpool.so")
+    libs = glob.glob(os.path.join(b["dir"], "src/python/PyImath", "libPyImath*.so"))
+    if not libs:
+        raise Inconclusive("libPyImath not found in " + b["dir"])
+    lib = sorted(libs, key=len)[0]
+    stamp = sha_files([src, os.path.join(REPO, "src/python/PyImath/PyImathTask.h")], extra=b["flags"] + lib + str(os.path.getmtime(lib)))
+    sf = so + ".stamp"
+    if os.path.exists(so) and os.path.exists(sf) and open(sf).read() == stamp:
+        return outd
+    cmd = [CXX, "-std=gnu++17", "-shared", "-fPIC"] + b["flags"].split() + ["-I/usr/include/python3.11", "-I" + os.path.join(REPO, "src/python/PyImath"),
+           "-I" + os.path.join(b["dir"], "config"), "-I" + os.path.join(REPO, "src/Imath"), src, "-o", so, lib, "-Wl,-rpath," + os.path.dirname(lib), "-lpthread"]
+    rc, o, e, _ = run(cmd, timeout=600)
+    if rc != 0:
+        raise Inconclusive("building vpool (%s) failed:\n%s\n%s" % (cfg, o[-2000:], e[-3000:]))
+    with open(sf, "w") as f:
+        f.write(stamp)
+    return outd
